@@ -536,6 +536,11 @@ where
             return;
         }
     }
+    if usize::BITS < 64 && l > (1 << 29) {
+        // 32-bit interpreter stage: no second allocation of this size in the address space
+        HUGE.with(|c| c.set(c.get() + 1));
+        return;
+    }
     // boxed (the box is consumed; a fresh calloc'd one per attempt)
     let mut bx: Box<[i8]> = vec![0i8; l].into_boxed_slice();
     bx[l - 1] = 77;
@@ -740,6 +745,18 @@ fn main() {
             if shard == 0 {
                 rep.oblige("length_mismatch_refused_untouched", 1);
                 check_inplace(&mut rep);
+            }
+            if lean && usize::BITS < 64 {
+                // a 32-BIT build (stage miri32): the counterpart of the 2^32 + d lengths of the
+                // 64-bit stages - one-byte samples, lengths from 2^27 up to the largest slice the
+                // interpreter's 32-bit address space affords (1.5 * 2^30), multiples of every width and near misses, dealt to
+                // the shards (zeroed allocations are cheap for the interpreter)
+                rep.oblige("huge_slice_views", 1);
+                // (the interpreter does not hand freed addresses out again reliably: the lengths of
+                // one shard, boxed copies included, stay below 3 GiB in sum)
+                let all: [usize; 10] = [1 << 27, (1 << 27) + 96, 3 << 26, 1 << 28, 3 << 27, (1 << 29) + 1, 5 << 27, 3 << 28, 1 << 30, 3 << 29];
+                let lens: Vec<usize> = all.iter().copied().enumerate().filter(|(i, _)| i % ns == shard % ns).map(|(_, l)| l).collect();
+                huge_views(&mut rep, &lens);
             }
         }
         other => panic!("unknown stage {}", other),
